@@ -123,6 +123,22 @@ class _OldReused:
 from .base import ReusedEnv as Reused        # noqa: E402  (one Parser/AstBuilder/IdGenerator + explicit TokenMatcher per shard)
 
 
+_SubBuilderClass = []
+
+
+def _SubBuilder(idg):
+    if not _SubBuilderClass:
+        from gherkin.ast_builder import AstBuilder
+
+        class CallerBuilder(AstBuilder):
+            """What a user of the library may write: an AstBuilder subclass that adds nothing observable."""
+            def build(self, token):
+                self.seen = getattr(self, "seen", 0) + 1
+                return super().build(token)
+        _SubBuilderClass.append(CallerBuilder)
+    return _SubBuilderClass[0](idg)
+
+
 def check_doc(R, M, case, prop, reused=None):
     """Parse the rendered document with the real parser under the probes and compare with
     the intent.  prop in {'C03','C04'} selects what is deciding."""
@@ -143,7 +159,18 @@ def check_doc(R, M, case, prop, reused=None):
         as_scanner = (M.cases % 4 == 0)
         if as_scanner:
             M.count("parses_from_scanner_object")
-        o = observe.parse_observed(R.text, as_scanner=as_scanner)
+        # ... and every fifth one with stop_at_first_error switched on (a well-formed document has no first error)
+        stop = (M.cases % 5 == 0)
+        if stop:
+            M.count("parses_in_stop_mode")
+        builder = idg = None
+        if M.cases % 7 == 0:
+            # ... and every seventh one by a Parser constructed with a (trivial) subclass of AstBuilder and a caller's generator
+            from gherkin.stream.id_generator import IdGenerator
+            idg = IdGenerator()
+            builder = _SubBuilder(idg)
+            M.count("parses_with_astbuilder_subclass")
+        o = observe.parse_observed(R.text, stop=stop, as_scanner=as_scanner, builder=builder, idgen=idg)
     deciding = {"C03": {"G4"}, "C04": {"G8"}}[prop]
     apply_parse_monitors(o, M, case, deciding, skip=() if prop == "C04" else ("G5",))
     cover_transitions(o, M)
